@@ -327,3 +327,28 @@ func emptySlice(v ssa.Value) bool {
 	}
 	return false
 }
+
+// c13HelloFresh: premise of hello-message-fresh made visible – where the forked stack creates the clientHelloMsg it
+// parses a received hello into: a fresh allocation (nothing to reset), or a pooled object (checked above).
+func c13HelloFresh(c *Ctx) {
+	p := c.P
+	n := 0
+	for _, fn := range p.FuncsIn("services/ja3/crypto/tls") {
+		if strings.HasSuffix(p.Fset.Position(fn.Pos()).Filename, "_test.go") || fn.Name() != "readHandshake" {
+			continue
+		}
+		for _, b := range fn.Blocks {
+			for _, in := range b.Instrs {
+				if a, ok := in.(*ssa.Alloc); ok && a.Heap {
+					if nt := NamedOf(a.Type()); nt != nil && nt.Obj().Name() == "clientHelloMsg" {
+						n++
+						c.Ok("hello-message-fresh", "readHandshake parses a received hello into a new clientHelloMsg", p.InstrPos(a), "fresh allocation per hello")
+					}
+				}
+			}
+		}
+	}
+	if n == 0 {
+		c.Observe("hello-message-fresh", "readHandshake parses a received hello into a new clientHelloMsg", "-", "no fresh allocation found in readHandshake: the message object comes from elsewhere (a pool is checked field by field)")
+	}
+}
